@@ -4,9 +4,13 @@ abstract document of that model.
 
 A universe is plain JSON data:
   {"cfg": {...}, "decls": [decl...], "ctrls": [ctrl...]}
+  cfg["schemes"] = [{"name","type","in","field","flows": [{"kind","auth","token","scopes": [[name, descr]]}]}]
   decl  = {"pkg": "types"|"other"|"ctl", "name": str, "kind": "struct"|"enum"|"alias", ...}
           struct: "fields": [{"name","embedded","json"(None|str),"validate"(str),"type": texpr}]
-          enum:   "base": str, "consts": [[name, go literal, printed value]]
+          enum:   "base": str, "consts": [[name, go literal, printed value]], "split": None | k (the
+                  constants after the first k are declared in a second file of the package)
+          a field may carry "grp": consecutive fields with the same grp are ONE Go declaration
+          (`Width, Height, area float64`), sharing type and tag
           alias:  "assigned": bool, "rhs": texpr
   texpr = ["prim", n] | ["time"] | ["named", pkg, n] | ["ptr", e] | ["slice", e] | ["map", k, v]
   ctrl  = {"name","prefix","security":[sec],"routes":[route]}
@@ -111,7 +115,8 @@ def gen_enum(rng, pkg, name, opts):
         lo = -5 if base.startswith("int") else 0
         for i, v in enumerate(rng.sample(range(lo, 60), n)):
             consts.append(["%sN%d" % (name, i), str(v), str(v)])
-    return {"pkg": pkg, "name": name, "kind": "enum", "base": base, "consts": consts}
+    split = rng.randint(1, len(consts) - 1) if len(consts) >= 2 and rng.random() < 0.5 else None
+    return {"pkg": pkg, "name": name, "kind": "enum", "base": base, "consts": consts, "split": split}
 
 
 def gen_alias(rng, pkg, name):
@@ -195,6 +200,14 @@ def gen_validate(rng, t):
     return rng.choice(["required", ""])
 
 
+def dive_tag(rng, e):
+    """`dive,oneof=<one declared value>` for a collection of the enum e (None if no value is a single word)."""
+    vals = [c[2] for c in e["consts"] if c[2] and " " not in c[2]]
+    if not vals:
+        return None
+    return rng.choice(["dive,oneof=%s", "required,dive,oneof=%s", "dive,enum=%s"]) % rng.choice(vals)
+
+
 def gen_struct(rng, pkg, name, later, enums, aliases, opts):
     nf = rng.randint(0, 6)
     fields = []
@@ -213,12 +226,32 @@ def gen_struct(rng, pkg, name, later, enums, aliases, opts):
             fname = rng.choice(["Zed", "Alpha", "Mid"]) + str(i)
         t = gen_field_type(rng, own, later, enums, aliases, opts.get("self_recursive", True))
         val = gen_validate(rng, t)
+        if enums and rng.random() < 0.10:
+            # a collection of a named enum whose elements are constrained with dive
+            e = rng.choice(enums)
+            t = rng.choice([["slice", named(e["pkg"], e["name"])], ["map", prim("string"), named(e["pkg"], e["name"])]])
+            val = dive_tag(rng, e) or val
         if (pkg, name) in texpr_refs(t) and "required" in val and rng.random() < 0.85:
             # libopenapi (3.1) refuses a required property that leads back to its own schema
             val = ",".join(x for x in val.split(",") if x != "required")
         fields.append({"name": fname, "embedded": False, "json": gen_json_tag(rng, fname, opts),
                        "validate": val, "type": t})
     rng.shuffle(fields)
+    if rng.random() < opts.get("grouped_fields", 0.3):
+        # one declaration with several names of mixed visibility: `Ga1, gb1, Gc1 T`
+        pattern = rng.choice([[True, False], [False, True], [True, True, False], [False, True, True], [True, True],
+                              [False, False, True]])
+        t = gen_field_type(rng, own, later, enums, aliases, False)
+        if rng.random() < 0.5 and (later or enums or aliases):
+            d = rng.choice(list(later) + list(enums) + list(aliases))
+            t = named(d["pkg"], d["name"])
+        jtag = rng.choice([None, None, None, None, "-", ",omitempty"])
+        val = rng.choice(["", "", "required"])
+        gid = "g%d" % rng.randrange(10 ** 6)
+        group = [{"name": ("G%s%d" if exp else "g%s%d") % ("abc"[i], len(fields)), "embedded": False, "json": jtag,
+                  "validate": val, "type": t, "grp": gid} for i, exp in enumerate(pattern)]
+        at = rng.randint(0, len(fields))
+        fields[at:at] = group
     return {"pkg": pkg, "name": name, "kind": "struct", "fields": fields}
 
 
@@ -307,7 +340,7 @@ def gen_universe(rng, opts=None):
     schemes = ["sec1", "sec2"][: rng.choice([1, 2])]
     cfg = {"title": rng.choice(["API", "My Title"]), "version": rng.choice(["1.2.3", "0.0.1"]),
            "base_url": rng.choice(["https://api.example.com", "http://localhost:8080/v1"]),
-           "schemes": [{"name": n, "type": "apiKey", "in": "header", "field": "x-" + n} for n in schemes],
+           "schemes": [{"name": n, "type": "apiKey", "in": "header", "field": "x-" + n, "flows": []} for n in schemes],
            "default": rng.choice([None, {"name": schemes[0], "scopes": []}])}
     decls = []
     # the second package first: types may use other, not the reverse
@@ -330,6 +363,9 @@ def gen_universe(rng, opts=None):
     ctrls = []
     idx = 0
     sec_pool = [{"name": n, "scopes": sc} for n in schemes for sc in ([], ["read"])]
+    if rng.random() < opts.get("oauth", 0.5):
+        cfg["schemes"].append(gen_oauth_scheme(rng))
+        sec_pool += [{"name": "oauthy", "scopes": sc} for sc in ([], ["read"], ["write", "admin"])]
     for ci in range(nctl):
         routes = []
         for _ in range(rng.randint(1, 3)):
@@ -413,20 +449,47 @@ def field_tag(f):
     return (" `" + " ".join(parts) + "`") if parts else ""
 
 
+def main_consts(d):
+    k = d.get("split")
+    return d["consts"] if not k else d["consts"][:k]
+
+
+def render_enum_extra(d):
+    """The constants of an enum that live in a second file of its package ('' if none)."""
+    k = d.get("split")
+    if d["kind"] != "enum" or not k or k >= len(d["consts"]):
+        return ""
+    lines = ["const ("]
+    for c in d["consts"][k:]:
+        lines.append("\t%s %s = %s" % (c[0], d["name"], c[1]))
+    lines.append(")")
+    return "\n".join(lines)
+
+
 def render_decl(d):
     here = d["pkg"]
     if d["kind"] == "struct":
         lines = ["type %s struct {" % d["name"]]
-        for f in d["fields"]:
+        fs = d["fields"]
+        i = 0
+        while i < len(fs):
+            f = fs[i]
             if f["embedded"]:
                 lines.append("\t" + texpr_go(f["type"], here) + field_tag(f))
-            else:
-                lines.append("\t%s %s%s" % (f["name"], texpr_go(f["type"], here), field_tag(f)))
+                i += 1
+                continue
+            names = [f["name"]]
+            j = i + 1
+            while f.get("grp") is not None and j < len(fs) and fs[j].get("grp") == f["grp"]:
+                names.append(fs[j]["name"])
+                j += 1
+            lines.append("\t%s %s%s" % (", ".join(names), texpr_go(f["type"], here), field_tag(f)))
+            i = j
         lines.append("}")
         return "\n".join(lines)
     if d["kind"] == "enum":
         lines = ["type %s %s" % (d["name"], d["base"]), "", "const ("]
-        for c in d["consts"]:
+        for c in main_consts(d):
             lines.append("\t%s %s = %s" % (c[0], d["name"], c[1]))
         lines.append(")")
         return "\n".join(lines)
@@ -447,10 +510,11 @@ def render_route(c, r):
             props.append("name:%s" % go_str(p["alias"]))
         if p["validate"]:
             props.append("validate:%s" % go_str(p["validate"]))
+        descr = (" " + p["descr"]) if p.get("descr") else ""
         if props:
-            lines.append("// @%s(%s, {%s})" % (ANN[p["loc"]], p["name"], ", ".join(props)))
+            lines.append("// @%s(%s, {%s})%s" % (ANN[p["loc"]], p["name"], ", ".join(props), descr))
         else:
-            lines.append("// @%s(%s)" % (ANN[p["loc"]], p["name"]))
+            lines.append("// @%s(%s)%s" % (ANN[p["loc"]], p["name"], descr))
     if r["hidden"]:
         lines.append("// @Hidden")
     for sc in r["security"]:
@@ -496,6 +560,10 @@ def render_universe(u, root, modpath):
         chunks = [render_decl(d) for d in u["decls"] if d["pkg"] == pkg]
         if chunks:
             write_pkg(root, modpath, pkg, chunks, pkg + ".go")
+        extra = [x for x in (render_enum_extra(d) for d in u["decls"] if d["pkg"] == pkg) if x]
+        if extra:
+            # "a_" sorts before the main file, "z_" after it: both orders of the package's files occur
+            write_pkg(root, modpath, pkg, extra, ("a_" if len(extra) % 2 else "z_") + pkg + "_more.go")
     chunks = [render_decl(d) for d in u["decls"] if d["pkg"] == "ctl"]
     for c in u["ctrls"]:
         lines = ["// @Tag(T)"]
@@ -510,6 +578,37 @@ def render_universe(u, root, modpath):
     write_pkg(root, modpath, "ctl", chunks, "ctl.go")
 
 
+def config_scheme(x):
+    out = {"description": "scheme " + x["name"], "name": x["name"], "type": x["type"]}
+    if x["field"]:
+        out["fieldName"] = x["field"]
+    if x["in"]:
+        out["in"] = x["in"]
+    if x.get("flows"):
+        out["flows"] = {}
+        for fl in x["flows"]:
+            o = {"scopes": {n: dsc for n, dsc in fl["scopes"]}}
+            if fl["auth"]:
+                o["authorizationUrl"] = fl["auth"]
+            if fl["token"]:
+                o["tokenUrl"] = fl["token"]
+            out["flows"][fl["kind"]] = o
+    return out
+
+
+def gen_oauth_scheme(rng):
+    """An oauth2 scheme with two or three flows whose scopes differ."""
+    scope_sets = [[["read", "Read access"]], [["write", "Write access"], ["admin", "Admin access"]],
+                  [["read", "Read access"], ["audit", "Audit log"]], [], [["admin", "Admin access"]]]
+    kinds = rng.sample(["implicit", "password", "clientCredentials", "authorizationCode"], rng.choice([2, 2, 3]))
+    sets = rng.sample(scope_sets, len(kinds))
+    flows = []
+    for k, sc in zip(kinds, sets):
+        flows.append({"kind": k, "auth": "https://auth.example.com/authorize" if k in ("implicit", "authorizationCode") else "",
+                      "token": "https://auth.example.com/token" if k != "implicit" else "", "scopes": sc})
+    return {"name": "oauthy", "type": "oauth2", "in": "", "field": "", "flows": flows}
+
+
 def render_config(u, root, modpath, openapi):
     cfg = u["cfg"]
     conf = {
@@ -521,8 +620,7 @@ def render_config(u, root, modpath, openapi):
         "openapiGeneratorConfig": {
             "openapi": openapi, "info": {"title": cfg["title"], "version": cfg["version"]},
             "baseUrl": cfg["base_url"],
-            "securitySchemes": [{"description": "scheme " + x["name"], "name": x["name"], "fieldName": x["field"],
-                                 "type": x["type"], "in": x["in"]} for x in cfg["schemes"]],
+            "securitySchemes": [config_scheme(x) for x in cfg["schemes"]],
             "specGeneratorConfig": {"outputPath": "./dist/spec-%s.json" % openapi}},
     }
     if cfg["default"]:
@@ -623,8 +721,15 @@ def coq_ctrl(c):
                                      "[" + ";\n      ".join(coq_route(r) for r in c["routes"]) + "]")
 
 
+def coq_flow(kind, auth, token, scopes):
+    return "(mkFlow %s %s %s %s)" % (coq_bytes(kind), coq_bytes(auth or ""), coq_bytes(token or ""),
+                                    coq_list(["(%s, %s)" % (coq_bytes(n), coq_bytes(dsc)) for n, dsc in scopes]))
+
+
 def coq_scheme(x):
-    return "(mkScheme %s %s %s %s)" % (coq_bytes(x["name"]), coq_bytes(x["type"]), coq_bytes(x["in"]), coq_bytes(x["field"]))
+    return "(mkScheme %s %s %s %s %s)" % (
+        coq_bytes(x["name"]), coq_bytes(x["type"]), coq_bytes(x["in"]), coq_bytes(x["field"]),
+        coq_list([coq_flow(fl["kind"], fl["auth"], fl["token"], fl["scopes"]) for fl in x.get("flows") or []]))
 
 
 def coq_cfg(cfg):
@@ -788,8 +893,18 @@ def doc_term(spec):
                 ops.append(dop_term(path, verb, item[verb]))
     schemes = []
     for n, x in sorted(((spec.get("components") or {}).get("securitySchemes") or {}).items()):
-        schemes.append("(mkScheme %s %s %s %s)" % (coq_bytes(n), coq_bytes(x.get("type", "")), coq_bytes(x.get("in", "")),
-                                                   coq_bytes(x.get("name", ""))))
+        flows = []
+        fl = x.get("flows") or {}
+        if not isinstance(fl, dict):
+            raise Unprojectable("flows of security scheme %s is not an object" % n)
+        for kind in sorted(fl):
+            f = fl[kind] or {}
+            sc = f.get("scopes") or {}
+            if not isinstance(sc, dict):
+                raise Unprojectable("scopes of flow %s is not an object" % kind)
+            flows.append(coq_flow(kind, f.get("authorizationUrl", ""), f.get("tokenUrl", ""), sorted(sc.items())))
+        schemes.append("(mkScheme %s %s %s %s %s)" % (coq_bytes(n), coq_bytes(x.get("type", "")), coq_bytes(x.get("in", "")),
+                                                      coq_bytes(x.get("name", "")), coq_list(flows)))
     return "(mkDoc %s %s %s %s\n   [%s]\n   %s)" % (
         coq_bytes(info.get("title", "")), coq_bytes(info.get("version", "")),
         coq_list([coq_bytes(x.get("url", "")) for x in (spec.get("servers") or [])]), coq_list(schemes),
